@@ -133,6 +133,15 @@ def cases(tier, seed):
                                     "filter": " ".join(flt) or "default", "spelling": "rel", "order": order}
                             out.append({"tree": tree, "roots": order, "args": ["--min", "0"] + flags + flt,
                                         "meta": meta, "spellings": ["rel"]})
+                            if idx % (9 if quick else 3) == 0:
+                                # the replication filter decides the same way when the content stage is skipped
+                                # (the suffix stage is then the last one)
+                                # (the decoy then has to differ within the hashed prefix to be another class)
+                                tree2 = [dict(e, c=["flip", 20000, 3, 0]) if e.get("c", [None])[0] == "flip" else e
+                                         for e in tree]
+                                out.append({"tree": tree2, "roots": order,
+                                            "args": ["--min", "0", "--skip-content-hash"] + flags + flt,
+                                            "meta": dict(meta, flags=flags + ["--skip-content-hash"]), "spellings": ["rel"]})
                     # spelling sub-space: a few flag/filter combinations, all spellings in one case
                     for flags in ([], ["--isolate"], ["-H"]):
                         if "--isolate" in flags and cross:
